@@ -269,6 +269,7 @@ impl Check for C06 {
     }
 
     fn run(&self, p: &Params, tape: &mut Tape, ctx: &mut Ctx) {
+        crate::icd::ALLOW_NON_FINITE.with(|a| a.set(true));
         let opts = StreamOpts { max_msgs: 6, permute_pointers: true, gaps: true, max_gates: 200, t31_percent: 70 };
         // ---- the stored object and the transport faults
         let mut notes: Vec<String> = Vec::new();
@@ -292,6 +293,23 @@ impl Check for C06 {
                 truncations = (0..bytes.len()).step_by(step).collect();
                 notes.push(format!("every truncation (step {}) of a {} of {} bytes, {} records", step, if as_chunk { "chunk" } else { "volume" }, bytes.len(), v.records.len()));
                 bytes
+            }
+            _ if p.index % 1500 == 1499 => {
+                // an intact record whose payload is far larger than anything real: tens of
+                // thousands of empty frames compress to a few KB
+                let frames = 20_000 + tape.draw(12_000) as usize;
+                let mut payload = Vec::with_capacity(frames * 2432);
+                let mut r = tape.fork();
+                let one = crate::icd::frame(&mut r, 2, 1, &[0u8; 0]);
+                let zero_frame: Vec<u8> = one.iter().enumerate().map(|(i, b)| if i < 28 { *b } else { 0 }).collect();
+                for _ in 0..frames {
+                    payload.extend_from_slice(&zero_frame);
+                }
+                let mut v = crate::icd::volume_header("6", 1, 19_000, 1, "KDMX");
+                v.extend_from_slice(&crate::icd::ldm_record(&payload, false));
+                notes.push(format!("one intact record of {} empty frames ({} bytes uncompressed, {} compressed)", frames, payload.len(), v.len() - 24));
+                ctx.count("huge_compressible_record");
+                v
             }
             _ => {
                 let (v, inner_notes) = build_volume_inner(tape, 4, &opts, true);
